@@ -66,6 +66,10 @@ CLAIMED = {
     "C08": ("4 C08", "get_positive_objects / get_negative_objects, Ap and Map are executed twice on the same symbolic results, under a "
             "symbolic threshold vector and a symbolically looser one (all ordered pairs), with the real distance / IoU score "
             "code; z3 decides TP-set inclusion, FN/FP count monotonicity and AP/APH/mAP monotonicity on every path."),
+    "C07": ("4 C07", "Relational: one symbolic scene (ego-relative positions) is rendered in the ego frame and in the map frame "
+            "under an exact-rotation ego pose with symbolic translation; the whole matching + frame evaluation pipeline runs on "
+            "both renderings inside one symbolic execution and z3 decides that filtering, pairing, TP/FP/FN/TN membership and "
+            "AP/APH (two-frame sequences: CLEAR outputs) agree on every path."),
 }
 NA = {
     "C16": "dataset loading goes through the nuScenes devkit and file I/O; a symbolic stand-in for the devkit would be the "
